@@ -152,23 +152,29 @@ def nextNumber (s : St) (step : Int) : St × Out :=
     | none => (s1, .int step)
     | some m => (s1, .int (m + step))
 
-/-- `NumberedObjectCollection.append_renumber` (an object that is already a member is left alone: repaired code). -/
+/-- `NumberedObjectCollection.append_renumber` (an object that is already a member is left alone; the number is found
+    before anything changes, so a failing call — `step = 0`, or a step that leads to no number above 0 — leaves the
+    object unlinked: repaired code, was finding C14-F1). -/
 def appendRenumber (s : St) (o : ObjId) (step : Int) : St × Out :=
   if o ∈ s.objs then (s, .int (s.num o))
   else
     let number := s.num o
-    let s0 := { s with link := fun x => if x = o ∧ s.owned then true else s.link x }
-    let r1 := append s0 o
-    if r1.2 = .ok then (r1.1, .int number)
+    let r0 := checkNumber s number
+    if r0.2 = .ok then
+      let r1 := append r0.1 o
+      if r1.2 = .ok then (r1.1, .int number) else r1
     else
-      let r2 := requestNumber r1.1 number step
+      let r2 := requestNumber r0.1 number step
       match r2.2.int? with
       | some n =>
-        let r3 := setNumber r2.1 o n
-        if r3.2 = .ok then
-          let r4 := append r3.1 o
-          if r4.2 = .ok then (r4.1, .int n) else r4
-        else r3
+        if n ≤ 0 then (r2.1, .err .valueError)
+        else
+          let s3 := { r2.1 with link := fun x => if x = o ∧ s.owned then true else r2.1.link x }
+          let r3 := setNumber s3 o n
+          if r3.2 = .ok then
+            let r4 := append r3.1 o
+            if r4.2 = .ok then (r4.1, .int n) else r4
+          else r3
       | none => r2
 
 /-- checking loop of `extend` (`ghost = true`) and `__iadd__` (`ghost = false`), repaired code: every
